@@ -79,6 +79,8 @@ impl HLCTimestamp {
     /// This internally gets the current UNIX timestamp in seconds.
     pub fn now(counter: u16, node: u8) -> Self {
         let duration = get_datacake_timestamp();
+        #[cfg(datacake_verif)]
+        let duration = crate::verif::wall(node).unwrap_or(duration);
         Self::new(duration, counter, node)
     }
 
@@ -152,6 +154,8 @@ impl HLCTimestamp {
     /// for transmission to another system.
     pub fn send(&mut self) -> Result<Self, TimestampError> {
         let ts = get_datacake_timestamp();
+        #[cfg(datacake_verif)]
+        let ts = crate::verif::wall(self.node()).unwrap_or(ts);
 
         let ts_old = self.datacake_timestamp();
         let c_old = self.counter();
@@ -185,6 +189,8 @@ impl HLCTimestamp {
         }
 
         let ts = get_datacake_timestamp();
+        #[cfg(datacake_verif)]
+        let ts = crate::verif::wall(self.node()).unwrap_or(ts);
 
         // Unpack the message wall time/counter
         let ts_msg = msg.datacake_timestamp();
@@ -300,6 +306,14 @@ fn pack(duration: Duration, counter: u16, node: u8) -> u64 {
     let node = node as u64;
 
     (seconds << 32) | (fractional << 24) | (counter << 8) | node
+}
+
+#[cfg(datacake_verif)]
+/// Verification hook: truncates a duration to the timestamp resolution exactly like
+/// [get_datacake_timestamp] does.
+pub(crate) fn verif_truncate(duration: Duration) -> Duration {
+    let (seconds, fractional) = duration_to_parts(duration);
+    parts_as_duration(seconds, fractional)
 }
 
 fn duration_to_parts(duration: Duration) -> (u64, u8) {
